@@ -1,4 +1,5 @@
 CONSTANTS
   OutFile = "repr_cases.ndjson"
+  Big = FALSE
 INIT Init
 NEXT Next
